@@ -164,3 +164,201 @@ Definition wf_separators_b (f : file) : bool :=
   forallb (fun d => sep_body (d_range d) (d_body d)) (f_directives f).
 
 End Separators.
+
+(* ================================================================== every byte of the text
+
+   [pieces t f]: the gaps, leaves, keyword windows and separators of a tree, in source order, each
+   with its class.  [determined_b]: the pieces follow each other without a hole from 0 to |t|
+   and the slice of each is in its class -- so the text is the concatenation of its pieces
+   ([pieces_concat], Proofs/DeterminedProofs.v), every one of which is described by cover_b
+   (gaps), wf_leaves_b (leaves), wf_keywords_b (keyword windows) or wf_separators_b.        *)
+
+Inductive pclass :=
+| PGap (after last : bool)      (* cover_b: whitespace-only and comment lines *)
+| PDate | PDecimal | PCommodity | PInterval
+| PAccount (a : account)
+| PQuoted (q : quoted)
+| PGlue (kw : str) (nl : bool)  (* blank+ kw blank+   (blank+ kw blank* newline) *)
+| PKwBlanks (kw : str)          (* kw blank+ *)
+| PLit (w : str)                (* `@performance(` and `)` *)
+| PBlanks0                      (* blank* *)
+| PBlanks1                      (* blank+ *)
+| PComma                        (* blank* , blank* *)
+| PRest                         (* blank* newline *)
+| PRestEnd (eofok : bool)       (* blank* newline; blank* at the end of the text *)
+| PRestOpt (eofok : bool)       (* nothing, or as PRestEnd *)
+| PDropped.                     (* nothing, or `@` ... newline: addon lines of no node *)
+
+Definition piece := (range * pclass)%type.
+
+Section Pieces.
+Variable dec : str -> Z * Z.
+Variables letter digit : Z -> bool.
+Variable t : str.
+
+Definition piece_ok_b (p : piece) : bool :=
+  let w := cut t (fst p) in
+  match snd p with
+  | PGap after last => gap_ok_b after last w && (negb after || last || nonnil w)
+  | PDate => leaf_date dec digit t (fst p)
+  | PDecimal => leaf_decimal dec digit t (fst p)
+  | PCommodity => leaf_commodity dec letter digit t (fst p)
+  | PInterval => leaf_interval t (fst p)
+  | PAccount a => range_eqb (fst p) (acc_range a) && leaf_account dec letter digit t a
+  | PQuoted q => range_eqb (fst p) (qs_range q) && leaf_quoted dec t q
+  | PGlue kw nl => kw_glue kw nl w
+  | PKwBlanks kw => kw_then_blanks kw w
+  | PLit x => str_eqb w x
+  | PBlanks0 => blanks_b w
+  | PBlanks1 => blanks1_b w
+  | PComma => comma_b w
+  | PRest => restline_b w
+  | PRestEnd eofok => restline_end_b eofok w
+  | PRestOpt eofok => negb (nonnil w) || restline_end_b eofok w
+  | PDropped => dropped_b w
+  end.
+
+(* the pieces ps lead from pos to hi without a hole, each in its class *)
+Fixpoint chain_b (pos : Z) (ps : list piece) (hi : Z) : bool :=
+  match ps with
+  | [] => pos =? hi
+  | p :: ps' =>
+    (r_start (fst p) =? pos) && (pos <=? r_end (fst p)) && piece_ok_b p && chain_b (r_end (fst p)) ps' hi
+  end.
+
+Definition sepp (a b : Z) (c : pclass) : piece := (mkRange a b, c).
+
+Definition pc_account (a : account) : piece := (acc_range a, PAccount a).
+
+Definition pc_booking (b : booking) : list piece :=
+  [pc_account (bk_credit b);
+   sepp (r_end (acc_range (bk_credit b))) (r_start (acc_range (bk_debit b))) PBlanks1;
+   pc_account (bk_debit b);
+   sepp (r_end (acc_range (bk_debit b))) (r_start (bk_quantity b)) PBlanks1;
+   (bk_quantity b, PDecimal);
+   sepp (r_end (bk_quantity b)) (r_start (bk_commodity b)) PBlanks1;
+   (bk_commodity b, PCommodity)].
+
+Definition pc_balance (b : balance) : list piece :=
+  [pc_account (bl_account b);
+   sepp (r_end (acc_range (bl_account b))) (r_start (bl_quantity b)) PBlanks1;
+   (bl_quantity b, PDecimal);
+   sepp (r_end (bl_quantity b)) (r_start (bl_commodity b)) PBlanks1;
+   (bl_commodity b, PCommodity)].
+
+(* lines (bookings, balance lines) of a node that ends at hi *)
+Fixpoint pc_lines {A} (pc : A -> list piece) (rg : A -> range) (lastc : pclass) (xs : list A) (hi : Z) : list piece :=
+  match xs with
+  | [] => []
+  | x :: xs' =>
+    pc x ++
+    match xs' with
+    | [] => [sepp (r_end (rg x)) hi lastc]
+    | x' :: _ => sepp (r_end (rg x)) (r_start (rg x')) PRest :: pc_lines pc rg lastc xs' hi
+    end
+  end.
+
+Fixpoint pc_targets (first : bool) (pos : Z) (cs : list range) (hi : Z) : list piece :=
+  match cs with
+  | [] => [sepp pos hi PBlanks0]
+  | c :: cs' =>
+    sepp pos (r_start c) (if first then PBlanks0 else PComma) :: (c, PCommodity) :: pc_targets false (r_end c) cs' hi
+  end.
+
+Definition pc_perf (p : performance) : list piece :=
+  let s := r_start (pf_range p) in
+  let e := r_end (pf_range p) in
+  sepp s (s + zlen kw_paren) (PLit kw_paren) ::
+  pc_targets true (s + zlen kw_paren) (pf_targets p) (e - 1) ++ [sepp (e - 1) e (PLit [41])].
+
+Definition pc_accrual (a : accrual) : list piece :=
+  [sepp (r_start (ac_range a)) (r_start (ac_interval a)) (PKwBlanks kw_accrue);
+   (ac_interval a, PInterval);
+   sepp (r_end (ac_interval a)) (r_start (ac_start a)) PBlanks1;
+   (ac_start a, PDate);
+   sepp (r_end (ac_start a)) (r_start (ac_end a)) PBlanks1;
+   (ac_end a, PDate);
+   sepp (r_end (ac_end a)) (r_start (acc_range (ac_account a))) PBlanks1;
+   pc_account (ac_account a)].
+
+Definition pc_addons (a : addons) : list piece :=
+  if is_zero_addons a then [] else
+  let p := ad_perf a in
+  let c := ad_accrual a in
+  let hi := r_end (ad_range a) in
+  match is_zero_perf p, is_zero_accrual c with
+  | true, true => []
+  | false, true => pc_perf p ++ [sepp (r_end (pf_range p)) hi PRest]
+  | true, false => pc_accrual c ++ [sepp (r_end (ac_range c)) hi PRest]
+  | false, false =>
+    if r_start (pf_range p) <? r_start (ac_range c)
+    then pc_perf p ++ sepp (r_end (pf_range p)) (r_start (ac_range c)) PRest :: pc_accrual c ++ [sepp (r_end (ac_range c)) hi PRest]
+    else pc_accrual c ++ sepp (r_end (ac_range c)) (r_start (pf_range p)) PRest :: pc_perf p ++ [sepp (r_end (pf_range p)) hi PRest]
+  end.
+
+Definition pc_body (d : range) (b : dir_body) : list piece :=
+  match b with
+  | BTrx x =>
+    let hi := r_end (tx_range x) in
+    pc_addons (tx_addons x) ++
+    (tx_date x, PDate) ::
+    sepp (r_end (tx_date x)) (r_start (qs_range (tx_desc x))) PBlanks1 ::
+    (qs_range (tx_desc x), PQuoted (tx_desc x)) ::
+    match tx_bookings x with
+    | b1 :: _ => [sepp (r_end (qs_range (tx_desc x))) (r_start (bk_range b1)) PRest]
+    | [] => []
+    end ++
+    pc_lines pc_booking bk_range (PRestEnd (hi =? zlen t)) (tx_bookings x) hi
+  | BOpen o =>
+    [sepp (r_start (op_range o)) (r_start (op_date o)) PDropped;
+     (op_date o, PDate);
+     sepp (r_end (op_date o)) (r_start (acc_range (op_account o))) (PGlue kw_open false);
+     pc_account (op_account o)]
+  | BClose c =>
+    [sepp (r_start (cl_range c)) (r_start (cl_date c)) PDropped;
+     (cl_date c, PDate);
+     sepp (r_end (cl_date c)) (r_start (acc_range (cl_account c))) (PGlue kw_close false);
+     pc_account (cl_account c)]
+  | BAssertion a =>
+    let hi := r_end (as_range a) in
+    sepp (r_start (as_range a)) (r_start (as_date a)) PDropped ::
+    (as_date a, PDate) ::
+    match as_balances a with
+    | b1 :: _ => [sepp (r_end (as_date a)) (r_start (bl_range b1)) (PGlue kw_balance true)]
+    | [] => []
+    end ++
+    pc_lines pc_balance bl_range (PRestOpt (hi =? zlen t)) (as_balances a) hi
+  | BPrice p =>
+    [sepp (r_start (pr_range p)) (r_start (pr_date p)) PDropped;
+     (pr_date p, PDate);
+     sepp (r_end (pr_date p)) (r_start (pr_commodity p)) (PGlue kw_price false);
+     (pr_commodity p, PCommodity);
+     sepp (r_end (pr_commodity p)) (r_start (pr_price p)) PBlanks1;
+     (pr_price p, PDecimal);
+     sepp (r_end (pr_price p)) (r_start (pr_target p)) PBlanks1;
+     (pr_target p, PCommodity)]
+  | BInclude i =>
+    [sepp (r_start d) (r_start (in_range i)) PDropped;
+     sepp (r_start (in_range i)) (r_start (qs_range (in_path i))) (PKwBlanks kw_include);
+     (qs_range (in_path i), PQuoted (in_path i))]
+  | BNone => []
+  end.
+
+Fixpoint pc_file (pos : Z) (after : bool) (ds : list directive) : list piece :=
+  match ds with
+  | [] => [sepp pos (zlen t) (PGap after true)]
+  | d :: ds' =>
+    sepp pos (r_start (d_range d)) (PGap after false) ::
+    pc_body (d_range d) (d_body d) ++ pc_file (r_end (d_range d)) true ds'
+  end.
+
+Definition pieces_gen (f : file) : list piece := pc_file 0 false (f_directives f).
+
+Definition determined_gen (f : file) : bool := chain_b 0 (pieces_gen f) (zlen t).
+
+End Pieces.
+
+(* with Go's decoder *)
+Definition pieces (t : str) (f : file) : list piece := pieces_gen t f.
+Definition determined_b (letter digit : Z -> bool) (t : str) (f : file) : bool :=
+  determined_gen Utf8M.decode letter digit t f.
